@@ -25,6 +25,9 @@ def coq_ranges(name, rs):
 def generate(parse, coq_str, Fail):
     out = ['(* character classes of the running CPython (%s) *)' % sys.version.split()[0]]
     out.append(coq_ranges('py_isspace_ranges', ranges(str.isspace)))
+    out.append(coq_ranges('py_isalnum_ranges', ranges(str.isalnum)))
+    out.append(coq_ranges('py_isdecimal_ranges', ranges(str.isdecimal)))
+    out.append(coq_ranges('py_isdigit_ranges', ranges(str.isdigit)))
     # line boundaries of str.splitlines
     lb = [cp for cp in range(0x110000) if len(('a' + chr(cp) + 'b').splitlines()) == 2]
     out.append('Definition py_linebreaks : list Z := [%s]%%Z.' % '; '.join(str(c) for c in lb))
